@@ -1273,6 +1273,40 @@ def b_pow(interp, args, kwargs):
     return T('call', 'pow', *[interp.termify(a) for a in args])
 
 
+def b_map(interp, args, kwargs):
+    if len(args) != 2:
+        return NotImplemented
+    if isinstance(args[1], T):
+        return T('call', 'map', interp.termify(args[0]), args[1])
+    return ListV([interp.call(args[0], [x])
+                  for x in interp.iterate(args[1])])
+
+
+def b_reduce(interp, args, kwargs):
+    items = None
+    if isinstance(args[1], T):
+        return NotImplemented
+    items = interp.iterate(args[1])
+    if len(args) == 3:
+        items = [args[2]] + items
+    if not items:
+        raise AbsRaise(T('exc', 'TypeError', 'reduce() of empty iterable'))
+    acc = items[0]
+    for x in items[1:]:
+        acc = interp.call(args[0], [acc, x])
+    return acc
+
+
+def b_divmod(interp, args, kwargs):
+    if _all_k(args):
+        try:
+            return K(divmod(args[0].v, args[1].v))
+        except Exception as e:
+            raise py_exc(interp, e)
+    t = T('call', 'divmod', *[interp.termify(a) for a in args])
+    return TupleV([T('item', t, K(0)), T('item', t, K(1))])
+
+
 def b_operator(sym):
     def f(interp, args, kwargs):
         if len(args) != 2:
@@ -1296,7 +1330,8 @@ BUILTINS = {
     're.compile': b_re_compile,
     'bin': b_pure('bin'), 'hex': b_pure('hex'), 'ord': b_pure('ord'),
     'chr': b_pure('chr'), 'abs': b_pure('abs'), 'repr': b_pure('repr'),
-    'math.ceil': b_math_ceil, 'pow': b_pow,
+    'math.ceil': b_math_ceil, 'pow': b_pow, 'map': b_map,
+    'functools.reduce': b_reduce, 'divmod': b_divmod,
     'operator.lt': b_operator('lt'), 'operator.le': b_operator('le'),
     'operator.eq': b_operator('eq'), 'operator.ne': b_operator('ne'),
     'operator.gt': b_operator('gt'), 'operator.ge': b_operator('ge'),
